@@ -71,3 +71,27 @@ Example link_swap_view :
 Proof. vm_compute. reflexivity. Qed.
 Example index_error_view : sels [2; 3]%nat [VInt 2] = None.
 Proof. reflexivity. Qed.
+
+(* ---------- histories (round 4) ---------- *)
+(* the seeded sequence: read, update_values_from_data with the SAME coordinate object and another shape, read *)
+Definition hist_demo : list hop :=
+  [HRead None; HUpdateValues 1 shear [3; 2]%nat; HRead None; HSetCoords 2 swap; HRead (Some [VInt 1]); HSetCoords 0 (Identity 0); HRead None; HKeep;
+   HSetCoords 3 shear; HSibling [1; 2]%nat None].
+Example hist_demo_wf : hwf (hbuild 1 shear [2; 3]%nat) /\ Forall (op_keeps_ndim 2) hist_demo.
+Proof. split; [apply hwf_hbuild|]. repeat constructor. Qed.
+(* the second read has the new shape (3,2): world x = x + y + 1 *)
+Example hist_demo_second_read :
+  nth 1 (hrun (hbuild 1 shear [2; 3]%nat) hist_demo) (T 0 []) =
+  T 0 [leaf 2; leaf 4;
+       T 0 [T 1 [zs [3; 2]%Z; T 0 (map enc_q [2; 2; 3; 3; 4; 4])]; T 1 [zs [3; 2]%Z; T 0 (map enc_q [1; 2; 2; 3; 3; 4])]];
+       T 0 [T 1 [zs [3; 2]%Z; T 0 (map enc_q [2; 2; 3; 3; 4; 4])]; T 1 [zs [3; 2]%Z; T 0 (map enc_q [1; 2; 2; 3; 3; 4])]];
+       T 0 [T 1 [zs [3; 2]%Z; T 0 (map enc_q [0; 0; 1; 1; 2; 2])]; T 1 [zs [3; 2]%Z; T 0 (map enc_q [0; 1; 0; 1; 0; 1])]]].
+Proof. vm_compute. reflexivity. Qed.
+(* five reads; without coordinates there is no world attribute and no link *)
+Example hist_demo_counts :
+  map (fun t => (tag (nth 0 (kids t) (T 9 [])), tag (nth 1 (kids t) (T 9 [])))) (hrun (hbuild 1 shear [2; 3]%nat) hist_demo)
+  = [(2, 4); (2, 4); (2, 4); (0, 0); (2, 4)]%Z.
+Proof. vm_compute. reflexivity. Qed.
+(* a state with stale links (built with another object) is NOT well formed: the invariant is not vacuous *)
+Example stale_links_not_wf : ~ hwf (mkH 2 swap [2; 3]%nat 2 1 shear 2).
+Proof. intros (H & _). discriminate H. Qed.
